@@ -44,6 +44,7 @@ STATEMENTS = [
     (None, None, ["print", " ", "*", ",", "'x'", ",", "1.0e-3"]),
     (None, None, ["msg", "=", "'alpha   beta  '"]),
     (None, None, ["w", "=", "\"two  ''  kinds\"", "//", "'  x'"]),
+    (40, None, ["x", "=", "a", "(", "i", ":", "j", ")", "+", "b", "(", "k", ":", ")"]),      # a continuation line may start with 'i:j)' - not a construct name
     (None, None, ["y", "=", "f", "(", "'p q'", ",", "'p q'", ",", "1.0e3", ",", "1.0e3", ")"]),          # the same literal twice inside one bracket
     (30, None, ["nm", "=", "'Hello'", "//", "\"ABC_1\"", "//", "'MiXed Case'"]),       # literals that are single words keep their letter case
 ]
@@ -195,7 +196,7 @@ def main(argv):
             if len(samples) < 2 and len(lines) > 2:
                 samples.append(dict(source=src, items=items))
     # ---------------------------------------------------------------- ';' joins with trailing comments (C04, C11)
-    for a, b in itertools.permutations(STATEMENTS[:5] + STATEMENTS[-2:], 2):
+    for a, b in itertools.permutations(STATEMENTS[:5] + STATEMENTS[-2:], 2):   # (the last two: repeated literals, mixed-case literals)
         for sep in (";", " ; ", ";  "):
             for tail in ("", " ! trailing"):
                 src = head(a) + tokens_text(a[2]) + sep + head(b, "", (len(sep) + len(tail)) % 4) + tokens_text(b[2]) + tail + "\n" + "z = 0\n"
